@@ -135,20 +135,26 @@ def model_check(run, module, cfg=None, workers=12, timeout=3000, required_action
     return r
 
 
-def mc_vectors(run, cfg, module="CelEvalMC", trace_module="CelEvalTrace", workers=12, timeout=3000, nontrivial=None, required_actions=None):
+def mc_vectors(run, cfg, module="CelEvalMC", trace_module="CelEvalTrace", workers=12, timeout=3000, nontrivial=None, required_actions=None, max_replay=250000):
     """Model-check spec/<module> under <cfg>.cfg (invariants relate the abstract machine to the declarative
     denotation on every program the model builds), then replay every generated program against the
     implementation and validate what it did (spec -> implementation)."""
     r = model_check(run, module, cfg=cfg, workers=workers, timeout=timeout, required_actions=required_actions)
     if not r.vecs:
         raise T.ToolError("model %s produced no vectors" % cfg)
+    vecs = r.vecs
+    if len(vecs) > max_replay:
+        # the model itself was checked exhaustively; replay a seeded, evenly spread sample of its programs
+        import random
+        rnd = random.Random(run.seed)
+        vecs = rnd.sample(vecs, max_replay)
     vec = run.work(cfg + ".vectors.ndjson")
     with open(vec, "w") as f:
-        for v in r.vecs:
+        for v in vecs:
             f.write(v + "\n")
     out = run.work(cfg + ".cases.ndjson")
     celconf(["run-vectors", "--in", vec, "--out", out])
-    run.extra.setdefault("models", []).append({"cfg": cfg, "distinct_states": r.distinct, "programs": len(r.vecs)})
+    run.extra.setdefault("models", []).append({"cfg": cfg, "distinct_states": r.distinct, "programs": len(r.vecs), "programs_replayed": len(vecs)})
     validate_trace(run, trace_module, out, nontrivial=nontrivial,
                    what="generated program: implementation behaviour is not a behaviour of the specification")
     return r
